@@ -232,6 +232,29 @@ Theorem do_save_exported_no_compaction :
 Proof. exact do_save_exported_no_compaction_proved. Qed.
 Print Assumptions do_save_exported_no_compaction.
 
+(* on-disk state machines. rsm.StateMachine.concurrentSave (step order and the returns of
+   sync() that precede the user Sync() are GENERATED) records a snapshot only at an index the
+   user state machine has been synced up to: a sync() that can return without calling the
+   user Sync() breaks this theorem *)
+Theorem concurrent_save_synced_covers_snapshot : forall ip isy synced,
+  ip <= isy ->
+  match concurrent_save rsm_concurrent_save_steps ip isy synced None None with
+  | (sy, Some i) => i <= sy
+  | (_, None) => True
+  end.
+Proof. exact concurrent_save_synced_covers_snapshot_proved. Qed.
+Print Assumptions concurrent_save_synced_covers_snapshot.
+
+(* soundness of the extracted checker run on recorded runs of the real rsm.StateMachine over
+   an on-disk state machine that keeps in-core and synced state apart: if it accepts, then at
+   every instant a power cut reopens the state machine at or above every recorded snapshot *)
+Theorem odsm_ok_snapshot_covered : forall evs,
+  odsm_ok evs = true ->
+  forall n, exists stn pn, odsm_run (mkOS 0 0) 0 (firstn n evs) = (stn, pn, 0) /\
+                           os_snap stn <= os_synced stn.
+Proof. exact odsm_ok_snapshot_covered_proved. Qed.
+Print Assumptions odsm_ok_snapshot_covered.
+
 (* faithful to the code: a commit-only State change is NOT fsynced by Tan; the commit index may
    lag after power loss (no message of the property makes a claim about it) *)
 Theorem tan_commit_only_change_not_synced :
@@ -311,4 +334,10 @@ Example do_save_examples :
   do_save_run true do_save_steps = [EfSaved; EfCommitted] /\
   file_obsolete [mkNF 0 4 [1; 2]; mkNF 7 9 [8; 9]] 4 = false /\
   file_obsolete [mkNF 0 4 [1; 2]; mkNF 7 9 [8; 9]] 5 = true.
+Proof. vm_compute. repeat split; reflexivity. Qed.
+
+Example odsm_examples :
+  odsm_ok [OApply 1; OApply 2; OSync 2; OApply 3; OSync 3; OSnap 3; OCut 3] = true /\
+  odsm_ok [OApply 1; OApply 2; OSync 2; OApply 3; OSnap 3] = false /\
+  odsm_ok [OSync 2; OSnap 2; OCut 1] = false.
 Proof. vm_compute. repeat split; reflexivity. Qed.
